@@ -157,7 +157,7 @@ Proof. intros. unfold steps_ok. apply forallb_forall. intros; reflexivity. Qed.
 Lemma tight_none : forall e, tight None e = true.
 Proof.
   induction e as [ck nn v|i|m n ss|ss|h ss IHh|o x IHx|o l r IHl IHr|neg l t IHl|py c0 a b IHc IHa IHb|sk es IHes|fs IHfs|m fn args kw IHargs IHkw|opt t x IHx|x ixs IHx IHixs|x IHx|m n|x els IHx IHels] using expr_ind'; cbn [tight]; try reflexivity; try apply steps_ok_none.
-  rewrite IHx. reflexivity.
+  rewrite IHx. rewrite orb_true_r. reflexivity.
 Qed.
 
 (* ------------------------------------------------------------------ facts about the generated tables
@@ -239,12 +239,12 @@ Lemma op_global : forall f r, parse_operand (Datatypes.S f) (TSym S_GLOBAL :: r)
   match parse_name r with Some (m, n, r2) => Some (EGlobal m n, r2) | None => None end.
 Proof. reflexivity. Qed.
 Lemma op_cast : forall f r, parse_operand (Datatypes.S f) (TSym S_LANGBRACKET :: r) =
-  let opt := starts S_OPTIONAL r in
-  match parse_type f (if opt then tl r else r) with
+  let cm := if starts S_OPTIONAL r then COpt else if starts S_REQUIRED r then CReq else CNone in
+  match parse_type f (match cm with CNone => r | _ => tl r end) with
   | Some (t, r2) =>
       match expect S_RANGBRACKET r2 with
       | Some r3 => match parse_expr f (Some p_typecast) r3 with
-                   | Some (e, r4) => Some (ECast opt t e, r4)
+                   | Some (e, r4) => Some (ECast cm t e, r4)
                    | None => None
                    end
       | None => None
@@ -636,13 +636,20 @@ Proof. intros. unfold pp. cbn [pp_items]. destruct (head_bare h); tk; reflexivit
 Lemma pp_un : forall o x,
   pp (EUn o x) = if un_word o then TSym (un_sym o) :: TSym S_LPAREN :: pp x ++ [TSym S_RPAREN]
                  else TSym (un_sym o) :: pp x.
-Proof. intros. unfold pp. cbn [pp_items]. destruct (un_word o); tk; reflexivity. Qed.
+Proof. intros. unfold pp. cbn [pp_items]. destruct o; cbn [un_word]; try destruct (is_uplus x); tk; reflexivity. Qed.
+
+(* an operand that the printer parenthesises when [b] *)
+Definition twrap (b : bool) (l : list tok) : list tok := if b then TSym S_LPAREN :: l ++ [TSym S_RPAREN] else l.
+
+Lemma toks_wrap_if : forall b l, toks (wrap_if b l) = twrap b (toks l).
+Proof. intros [] l; unfold wrap_if, twrap; tk; reflexivity. Qed.
+
 Lemma pp_bin : forall o l r,
-  pp (EBin o l r) = TSym S_LPAREN :: pp l ++ sym_toks (op_syms o) ++ pp r ++ [TSym S_RPAREN].
-Proof. intros. unfold pp. cbn [pp_items]. tk. reflexivity. Qed.
+  pp (EBin o l r) = TSym S_LPAREN :: twrap (swallows (LBin o) l) (pp l) ++ sym_toks (op_syms o) ++ pp r ++ [TSym S_RPAREN].
+Proof. intros. unfold pp. cbn [pp_items]. tk. rewrite toks_wrap_if. tk. reflexivity. Qed.
 Lemma pp_is : forall neg l t,
-  pp (EIs neg l t) = TSym S_LPAREN :: pp l ++ TSym S_IS :: (if neg then [TSym S_NOT] else []) ++ ttype true t ++ [TSym S_RPAREN].
-Proof. intros. unfold pp, ttype. cbn [pp_items]. destruct neg; tk; reflexivity. Qed.
+  pp (EIs neg l t) = TSym S_LPAREN :: twrap (swallows LIs l) (pp l) ++ TSym S_IS :: (if neg then [TSym S_NOT] else []) ++ ttype true t ++ [TSym S_RPAREN].
+Proof. intros. unfold pp, ttype. cbn [pp_items]. destruct neg; tk; rewrite toks_wrap_if; tk; reflexivity. Qed.
 Lemma pp_if_py : forall c a b,
   pp (EIf true c a b) = TSym S_LPAREN :: pp a ++ TSym S_IF :: pp c ++ TSym S_ELSE :: pp b ++ [TSym S_RPAREN].
 Proof. intros. unfold pp. cbn [pp_items]. tk. reflexivity. Qed.
@@ -673,9 +680,11 @@ Proof.
   - destruct args, kw; reflexivity.
   - f_equal. apply tcommas_ext. intros [n x]. reflexivity.
 Qed.
-Lemma pp_cast : forall opt t x,
-  pp (ECast opt t x) = TSym S_LANGBRACKET :: (if opt then [TSym S_OPTIONAL] else []) ++ ttype false t ++ TSym S_RANGBRACKET :: pp x.
-Proof. intros. unfold pp, ttype. cbn [pp_items]. destruct opt; tk; reflexivity. Qed.
+Definition tcmod (cm : cmod) : list tok :=
+  match cm with CNone => [] | COpt => [TSym S_OPTIONAL] | CReq => [TSym S_REQUIRED] end.
+Lemma pp_cast : forall cm t x,
+  pp (ECast cm t x) = TSym S_LANGBRACKET :: tcmod cm ++ ttype false t ++ TSym S_RANGBRACKET :: pp x.
+Proof. intros. unfold pp, ttype. cbn [pp_items]. destruct cm; tk; reflexivity. Qed.
 Lemma toks_flat_ix : forall ixs, toks (flat_map (pp_ix (fun x => pp_items x)) ixs) = flat_map tix ixs.
 Proof.
   induction ixs as [|[[sl a] b] r IH]; [reflexivity|]. cbn [flat_map]. rewrite toks_app, IH. f_equal.
@@ -683,13 +692,14 @@ Proof.
 Qed.
 Lemma pp_indir : forall x ixs, pp (EIndir x ixs) = TSym S_LPAREN :: pp x ++ TSym S_RPAREN :: flat_map tix ixs.
 Proof. intros. unfold pp. cbn [pp_items]. tk. rewrite toks_flat_ix. reflexivity. Qed.
-Lemma pp_detached : forall x, pp (EDetached x) = TSym S_DETACHED :: pp x.
-Proof. reflexivity. Qed.
+Lemma pp_detached : forall x, pp (EDetached x) = TSym S_DETACHED :: twrap (det_paren x) (pp x).
+Proof. intros. unfold pp. cbn [pp_items]. tk. rewrite toks_wrap_if. reflexivity. Qed.
 Lemma pp_global : forall m n, pp (EGlobal m n) = TSym S_GLOBAL :: tname m n.
 Proof. intros. unfold pp. cbn [pp_items]. tk. reflexivity. Qed.
-Lemma pp_shape : forall x els, pp (EShape x els) = pp x ++ TSym S_LBRACE :: tcommas tel els ++ [TSym S_RBRACE].
+Lemma pp_shape : forall x el els,
+  pp (EShape x (el :: els)) = twrap (swallows LBrace x) (pp x) ++ TSym S_LBRACE :: tcommas tel (el :: els) ++ [TSym S_RBRACE].
 Proof.
-  intros. unfold pp. cbn [pp_items]. tk. f_equal. f_equal. f_equal. apply tcommas_ext. intros [n [y|]]; reflexivity.
+  intros. unfold pp. cbn [pp_items]. tk. rewrite toks_wrap_if. f_equal. f_equal. f_equal. apply tcommas_ext. intros [n [y|]]; reflexivity.
 Qed.
 
 (* ------------------------------------------------------------------ first tokens *)
@@ -730,8 +740,9 @@ Proof.
   - rewrite pp_indir. reflexivity.
   - rewrite pp_detached. reflexivity.
   - rewrite pp_global. reflexivity.
-  - rewrite pp_shape. cbn [wf] in Hwf. apply andb_prop in Hwf as [Hwf _]. apply andb_prop in Hwf as [Hwf _].
-    apply andb_prop in Hwf as [Hwf _]. rewrite <- app_assoc. apply IHx; assumption.
+  - cbn [wf] in Hwf. apply andb_prop in Hwf as [Hwf _]. apply andb_prop in Hwf as [Hwf Hne].
+    apply andb_prop in Hwf as [Hwf _]. destruct els as [|el els]; [discriminate|]. rewrite pp_shape.
+    destruct (swallows LBrace x); cbn [twrap]; [reflexivity|]. rewrite <- app_assoc. apply IHx; assumption.
 Qed.
 
 Lemma firstbad_starts : forall ts, firstbad ts = false ->
@@ -780,8 +791,9 @@ Proof.
   - rewrite pp_indir. reflexivity.
   - rewrite pp_detached. reflexivity.
   - rewrite pp_global. reflexivity.
-  - rewrite pp_shape. cbn [wf] in Hwf. apply andb_prop in Hwf as [Hwf _]. apply andb_prop in Hwf as [Hwf _].
-    apply andb_prop in Hwf as [Hwf _]. rewrite <- app_assoc. apply IHx; [assumption|reflexivity].
+  - cbn [wf] in Hwf. apply andb_prop in Hwf as [Hwf _]. apply andb_prop in Hwf as [Hwf Hne].
+    apply andb_prop in Hwf as [Hwf _]. destruct els as [|el els]; [discriminate|]. rewrite pp_shape.
+    destruct (swallows LBrace x); cbn [twrap]; [reflexivity|]. rewrite <- app_assoc. apply IHx; [assumption|reflexivity].
 Qed.
 
 (* ------------------------------------------------------------------ path steps *)
